@@ -771,6 +771,13 @@ func childLoops(c *Ctx, fn *ssa.Function) []loopInfo {
 						kind = "index"
 					}
 				}
+			case *ssa.Lookup:
+				// children visited by key: for _, k := range sortedKeys(d) { v := d[k] ... }
+				if isValueColl(x.X.Type()) {
+					if _, isConst := x.Index.(*ssa.Const); !isConst {
+						kind = "lookup"
+					}
+				}
 			case *ssa.Call:
 				if accessField != nil && IsCallTo(x, accessField) {
 					kind = "struct-field"
